@@ -80,7 +80,7 @@ def nested_param_edit(rng, spec):
     flat = [k for k, v in kw.items() if isinstance(v, (int, float)) and not isinstance(v, bool)
             and k.endswith(("_scale", "level"))]
     nested = [k for k, v in kw.items() if isinstance(v, dict) and "cls" in v and v["cls"] == "L2Cost"]
-    if nested and rng.random() < 0.4:
+    if nested and rng.random() < 0.7:
         k = nested[int(rng.integers(len(nested)))]
         if kw[k]["kw"].get("param") is None and spec["cls"] not in ("CAPA", "MVCAPA"):
             return None
@@ -188,6 +188,11 @@ def history(ctx, seed):
         else:
             which = DETECTORS[int(rng.integers(len(DETECTORS)))]
             spec, _, _ = random_detector(rng, True, 3, which=which)
+            if which in ("CAPA", "MVCAPA") and rng.random() < 0.6:
+                # a cost handed in as saving: the detector wraps it itself (to_saving)
+                spec["kw"]["collective_saving"] = S("L2Cost", param=round(float(rng.normal()), 2))
+                if rng.random() < 0.5:
+                    spec["kw"]["point_saving"] = S("L2Cost", param=0.0)
             if "GaussianCovCost" in short(spec):
                 spec, _, _ = random_detector(rng, True, 3, which="PELT")
             if spec["cls"] == "CircularBinarySegmentation":
@@ -291,7 +296,7 @@ def history(ctx, seed):
                     o.obj = build(o.spec)
                     o.train = None
                 log.append((step, short(o.spec)[:40], "update", Bf.shape, st))
-            elif r < 0.36 and not o.shared:
+            elif r < 0.40 and not o.shared:
                 ed = nested_param_edit(rng, o.spec)
                 if ed is None:
                     continue
@@ -307,7 +312,7 @@ def history(ctx, seed):
                                   f"{short(o.spec)}.set_params({params}) raised {type(ex).__name__}: {ex}",
                                   {"seed": seed, "step": step})
                 log.append((step, short(o.spec)[:40], "set_params", params, "ok"))
-            elif r < 0.42 and not o.shared:
+            elif r < 0.46 and not o.shared:
                 # continue the history on a clone (must carry the configuration, not the fitted state)
                 try:
                     o.obj = o.obj.clone()
